@@ -37,6 +37,7 @@ std::string handle(const std::string& op, const Args& a) {
     if (op != "slice") return "unknown-op";
     auto enc = get(a, "enc"); auto level = get(a, "level");
     auto src = nats(a, "shape"); auto es = parse_slices(get(a, "sl"));
+    uvec at_v; if (has(a, "at")) { at_v = nats(a, "at"); at_arg() = &at_v; } else at_arg() = nullptr;
     if (enc != "packed") return "bad-args";
 #if C05_LEN == 4
     if (es.size() != 4 || es[0].kind != C05_FIRST) return "bad-args";
